@@ -20,7 +20,7 @@ RULE = ("(A) Alignment.gamma_k_disorder(d, c) on library best / soft alignments 
 ASSUMPTIONS = [
     "weights and values use the combined dissimilarity's own components through their d() (weighting logic is what C12 "
     "is about; the formulae are C04's): positional dissimilarity = positional_dissim.d, categorical = categorical_dissim.d",
-    "when the weighted mean has zero total weight the definition is silent: only finiteness / no exception is checked",
+    "when the weighted mean has zero total weight (or one below 1e-6, the rounding residue of 1 - alpha * positional for a pair sitting exactly on 1 / alpha) the definition is silent / ill-conditioned: only finiteness / no exception is checked",
     "when the mean chance categorical disorder is 0 the ratio is undefined: only '<= 1 or not a number' is checked",
     "known finding D7 is recognised only by its exact signature (no counted real-real pair, >= 1 counted unit/empty "
     "pair, library returned 0, reference == delta_empty)",
@@ -83,7 +83,9 @@ def ref_cat_disorder(alignment, dissim, category, dspec=None):
                 w = (1.0 / (k - 1)) * max(0.0, 1.0 - float(dissim.alpha) * _pos_formula(u1, u2, delta, custom))
                 num += w * _cat_value(dissim, dspec, u1, u2, delta)
                 den += w
-    if den == 0:
+    if den <= 1e-6 * max(1.0, delta):
+        # zero total weight - or a total weight that is nothing but the rounding residue of 1 - alpha * positional (a pair whose
+        # positional dissimilarity sits exactly on 1 / alpha): the weighted mean is undefined / ill-conditioned there
         return None, rr, ue
     return num / den, rr, ue
 
